@@ -5,6 +5,7 @@ import Rare.Gen.Tables
 import Rare.Gen.Skeleton
 import Rare.Model.PipelineSkeleton
 import Rare.Proofs.PipelineTrace
+import Rare.Proofs.C01Classify
 /-!
 # C01 — every input line is read exactly once and classified exactly once
 
@@ -153,6 +154,122 @@ theorem pipeline_final_bytes (cls : Line → Cls) (R B K W batchSize : Nat) (hW 
   have := pipeline_final cls R B K W hW _ hr hd
   simp only [hall] at this
   exact ⟨this.1, by simp [seqTotals, this.2.1, this.2.2.1, this.2.2.2.1]⟩
+
+/-! ## Classification: a function of the line's own source, number, bytes and groups
+
+`Model/C01Classify.lean`: `processLine e l` mirrors `processLineSync` for an extractor configuration `e`
+(matcher, name table, compiled ignore expressions, compiled extract expression, source names); the
+expressions are stages of the shared expression model evaluated against the `SliceSpaceExpressionContext`
+of the line (`C02.getMatch` / `C02.getKey`: groups, `{src}`, `{line}`, `{@}`, named groups). -/
+
+/-- The context the expressions of line `l` are evaluated in answers `{src}` with the name of `l`'s own
+    source and `{line}` with `l`'s own number (decimal). -/
+theorem context_src_line (e : Extractor) (l : Line) :
+    ctxGetKey (ctxOf e l) (ascii "src") = .ok (e.sourceName l.src) ∧
+    ctxGetKey (ctxOf e l) (ascii "line") = .ok (itoa l.num) := by
+  have h1 : (ascii "line" = ascii "src") = False := by
+    have : ascii "line" ≠ ascii "src" := by decide +kernel
+    simp [this]
+  constructor
+  · simp [ctxGetKey, C02.getKey, ctxOf]
+  · simp only [ctxGetKey, C02.getKey, ctxOf, h1, if_false, if_true]
+
+/-- The classification clause of the property, for every configuration and every line: the line is
+    unmatched iff the matcher finds nothing; otherwise it is ignored iff SOME ignore expression is truthy
+    for THAT line (its own groups, source name and line number) or the extracted key is empty, and matched
+    with exactly that key otherwise – `classify` is the specification (`Model/C01.lean`).
+    Hypotheses: the evaluations do not panic (`rs`, `key` are their results). -/
+theorem classification_spec (e : Extractor) (l : Line) (rs : List Bytes) (key : Bytes)
+    (hig : evalAll (ctxOf e l) (e.ignore.getD []) = .ok rs)
+    (hkey : evalStage (ctxOf e l) e.extract = .ok key) :
+    clsOf e l = classify (decide ((e.matcher l.text).length > 0)) rs key ∧
+    (clsOf e l = .matched → processLine e l = .ok (.matched key) ∧ keyOf e l = key ∧ key ≠ []) := by
+  obtain ⟨o, ho, hc, hk⟩ := processLine_classify e l rs key hig hkey
+  refine ⟨by rw [clsOf_of_ok ho, hc], fun hm => ?_⟩
+  rw [clsOf_of_ok ho] at hm
+  have := hk hm
+  subst this
+  exact ⟨ho, keyOf_of_matched ho, matched_key_nonempty ho⟩
+
+/-- Non-vacuity of `classification_spec`, and the reason the line number must be the line's own: with the
+    ignore expression `{eq {line} 1}` and extract `{src}:{0}` (`exampleExtractor`), the SAME bytes are ignored
+    as line 1 and matched as line 2, with the key built from the line's own source name. -/
+example :
+    (processLine exampleExtractor ⟨0, 1, ascii "k:v"⟩).toOption = some .ignored ∧
+    (processLine exampleExtractor ⟨1, 2, ascii "k:v"⟩).toOption = some (.matched (ascii "b.log:k:v")) ∧
+    (evalAll (ctxOf exampleExtractor ⟨1, 2, ascii "k:v"⟩) (exampleExtractor.ignore.getD [])).toOption = some [[]] := by
+  decide +kernel
+
+/-- What a worker computes as the line number of the `idx`-th line of a batch (`BatchStart + idx`) is the
+    number the reference gives that line, for every batch size and timer behaviour, and the line is the
+    `number`-th segment of its own source (C02's `lineNumber_true`, here for the lines of source `i`). -/
+theorem worker_line_number (batchSize i : Nat) (data : Bytes) (timer : Nat → Bool) :
+    ∀ b ∈ run batchSize ((linesOf i data).map fun l => (l, timer l.num)), ∀ p ∈ lineNumbers b,
+      p.2 = p.1.num ∧ p.1.src = i ∧ (C04.splitLines data)[p.2 - 1]? = some p.1.text := by
+  intro b hb p hp
+  have hcat := (batches_concat batchSize ((linesOf i data).map fun l => (l, timer l.num))).2.2
+  have hmap : ((linesOf i data).map fun l => (l, timer l.num)).map (·.1) = linesOf i data := by
+    simp [Function.comp_def]
+  rw [hmap] at hcat
+  have hmem : p ∈ (linesOf i data).zipIdx 1 := by
+    rw [← hcat]
+    exact List.mem_flatMap.mpr ⟨b, hb, hp⟩
+  have hnum := zipIdx_num (linesOf i data) 1 (linesOf_num i data) p hmem
+  have hl : p.1 ∈ linesOf i data := by
+    have := List.mem_map_of_mem (f := Prod.fst) hmem
+    rwa [List.zipIdx_map_fst] at this
+  obtain ⟨h1, _, h3⟩ := mem_linesOf hl
+  exact ⟨hnum, h1, by rw [hnum]; exact h3⟩
+
+/-- `pipeline_final` for the configured extractor: in every terminal state – whatever the batch size,
+    flush-timer behaviour, reader/worker counts, channel capacities and schedule – the consumer holds
+    exactly the multiset of lines that the sequential evaluation matches WHEN EVERY LINE IS CLASSIFIED IN ITS
+    OWN CONTEXT (`processLine e l`: `l`'s own source name, its 1-based position in its own source – see
+    `mem_reference_lines` –, its bytes and groups), each with the key of that evaluation, and the three
+    counters are the sequential class counts.  Hypothesis `NoPanic`: no expression evaluation panics. -/
+theorem pipeline_final_classified (e : Extractor) (R B K W batchSize : Nat) (hW : 1 ≤ W)
+    (datas : List Bytes) (timer : Nat → Nat → Bool) (hnp : NoPanic e (allLines datas)) {s : St Line}
+    (hr : Reach (clsOf e) R B K
+      (init ((datas.zipIdx 0).map fun p =>
+        (run batchSize ((linesOf p.2 p.1).map fun l => (l, timer p.2 l.num))).map (·.lines)) W) s)
+    (hd : s.consDone = true) :
+    s.consumed.Perm ((allLines datas).filter (outcomeIs e .matched)) ∧
+    (∀ l ∈ s.consumed, processLine e l = .ok (.matched (keyOf e l)) ∧ keyOf e l ≠ []) ∧
+    s.nRead = (allLines datas).length ∧
+    s.nMatched = ((allLines datas).filter (outcomeIs e .matched)).length ∧
+    s.nIgnored = ((allLines datas).filter (outcomeIs e .ignored)).length ∧
+    s.nRead = s.nMatched + s.nIgnored + ((allLines datas).filter (outcomeIs e .unmatched)).length := by
+  obtain ⟨hperm, htot⟩ := pipeline_final_bytes (clsOf e) R B K W batchSize hW datas timer hr hd
+  -- the class filters, restated over `processLine`
+  have hC : ∀ c, ∀ l ∈ allLines datas, decide (clsOf e l = c) = outcomeIs e c l := by
+    intro c l hl
+    obtain ⟨o, ho⟩ := hnp l hl
+    simp only [clsOf, outcomeIs, ho]
+    by_cases h : o.cls = c <;> simp [h]
+  have hfM : (allLines datas).filter (isMatched (clsOf e)) = (allLines datas).filter (outcomeIs e .matched) :=
+    List.filter_congr (hC .matched)
+  have hfI : (allLines datas).filter (isIgnored (clsOf e)) = (allLines datas).filter (outcomeIs e .ignored) :=
+    List.filter_congr (hC .ignored)
+  simp only [seqMatches, seqTotals, Totals.mk.injEq] at hperm htot
+  rw [hfM] at hperm
+  refine ⟨hperm, ?_, htot.1, by rw [htot.2.1, hfM], by rw [htot.2.2, hfI], ?_⟩
+  · intro l hl
+    have hmem := (hperm.mem_iff).mp hl
+    simp only [List.mem_filter] at hmem
+    have hcl : clsOf e l = .matched := by
+      have := hC .matched l hmem.1
+      rw [hmem.2] at this
+      simpa using this
+    have := matched_of_clsOf hcl
+    exact ⟨this, matched_key_nonempty this⟩
+  · rw [htot.1, htot.2.1, htot.2.2, hfM, hfI]
+    exact class_counts e _ hnp
+
+/-- The lines of the sequential reference are exactly "segment `k` of `splitLines` of source `i`, numbered
+    `k + 1`": the source index and the line number a line is classified with are its own. -/
+theorem mem_reference_lines {datas : List Bytes} {l : Line} (h : l ∈ allLines datas) :
+    ∃ data, datas[l.src]? = some data ∧ 1 ≤ l.num ∧ (C04.splitLines data)[l.num - 1]? = some l.text :=
+  mem_allLines h
 
 /-- `IgnoreMatch`/`Truthy` on ASCII text: a result is truthy iff it has a byte that is not white space. -/
 theorem truthy_ascii (s : Bytes) (hs : ∀ b ∈ s, b < 128) :
